@@ -126,10 +126,17 @@ def run_job(prog, job):
         assertions = list(s.assertions())
         r = z3.unknown
         m_hint = None
-        if kind in ('nl-consistency', 'lat-range'):
-            # witness search for the recorded findings: try small sub-spaces first (any model is replayed natively)
+        if kind in ('nl-consistency', 'lat-range', 'lat-far'):
+            # counterexample / witness search in small sub-spaces first (any model is replayed natively; an `unsat`
+            # here proves nothing and the full query below still runs)
             zero = lambda n: z3.BitVec(n, 17) == 0     # noqa: E731
-            for hint in ([zero('b_lat'), zero('a_lon'), zero('b_lon')], [zero('a_lat'), zero('a_lon'), zero('b_lon')]):
+            edge = (0, 1, 2, 3, 32767, 32768, 32769, 65535, 65536, 65537, 98303, 98304, 98305, 131068, 131069, 131070, 131071)
+            near = lambda n: z3.Or(*[z3.BitVec(n, 17) == c_ for c_ in edge])     # noqa: E731
+            hints = ([[zero('b_lat'), zero('a_lon'), zero('b_lon')], [zero('a_lat'), zero('a_lon'), zero('b_lon')]]
+                     if kind != 'lat-far' else
+                     # values at the ends and quarter points of the CPR range first (wrap-around errors show there)
+                     [[near('a_lat'), near('b_lat'), zero('a_lon'), zero('b_lon')], [zero('a_lon'), zero('b_lon')]])
+            for hint in hints:
                 s1 = z3.Solver()
                 s1.set('timeout', 45000)
                 for x in assertions:
@@ -158,7 +165,13 @@ def run_job(prog, job):
                                       'cpr': w, 'replay_kind': 'cpr', 'replay_request': req, 'expect': kind, 'job': job,
                                       'model_lat': str(m.eval(lat, model_completion=True)), 'model_lon': str(m.eval(lon, model_completion=True))})
         else:
-            res['undecided'] = ['%s (%s order %s%s): solver gave no verdict in %ds' % (desc, kind, 'o' if pa else 'e', 'o' if pb else 'e', job.get('timeout_ms', 120000) // 1000)]
+            msg = '%s (%s order %s%s): solver gave no verdict in %ds' % (desc, kind, 'o' if pa else 'e', 'o' if pb else 'e', job.get('timeout_ms', 120000) // 1000)
+            if kind in ('lat-far', 'fmod-side', 'lon-range'):
+                # claims of the property: no verdict is no pass
+                res['inconclusive'] = msg
+            else:
+                # witness searches for the recorded findings: harmless when they time out
+                res['undecided'] = [msg]
         res['samples'].append({'sub_claim': kind, 'order': job['order'], 'verdict': str(r), 'solver_s': round(res['solver_s'], 1)})
         return res
     if kind == 'nl-table':
@@ -335,7 +348,7 @@ def replay(v):
 def main(tier):
     t0 = time.time()
     files, dirs, info = fw.dump_all(['adsb_deku'])
-    to = 120000 if tier == 'quick' else 900000
+    to = 120000 if tier == 'quick' else 1800000
     jobs = [{'kind': 'parity'}, {'kind': 'nl-table'}]
     kinds = ('lat-range', 'lat-far', 'nl-consistency') if tier == 'quick' else ('lat-range', 'lat-far', 'nl-consistency', 'fmod-side', 'lon-range')
     for order in ((0, 1), (1, 0)):
